@@ -72,4 +72,7 @@ ConformMem == (Live /\ mode = "up") =>
                  /\ Last.np = Cardinality(pending)
                  /\ Last.no = Cardinality(opened)
 ConformDown == (Live /\ mode # "up") => Last.up = 0
+\* the executor could perform the step: the thread was where the schedule says (a thread that
+\* returned early or parked unexpectedly has already broken ConformRet on an earlier line)
+ConformNote == Live => Last.note = ""
 =============================================================================
